@@ -27,8 +27,12 @@ def regex_literals(facts):
         for bi, t in b.calls(r"^regex::Regex::new$|^regex::RegexBuilder::new$|^regex::bytes::Regex::new$|^regex::RegexSet::new$"):
             od = b.origin_def(t["args"][0])
             pat = const_value(od[1]) if od and od[0] == "const" else None
-            m = re.match(r"^<(.*) as std::ops::Deref>::deref::__static_ref_initialize$", b.path)
-            out.append((m.group(1) if m else b.path, pat if isinstance(pat, str) else None, b, bi))
+            m = re.match(r"^<(.*) as std::ops::Deref>::deref::__static_ref_initialize$", b.path) or re.match(r"^(.*)::\{closure#0\}$", b.path)
+            owner = m.group(1) if m else b.path
+            # `static X: LazyLock<Regex> = LazyLock::new(|| Regex::new(..))`: the initialiser closure of static X
+            if m and "{closure" in b.path and owner not in {s_["path"] for s_ in facts.statics}:
+                owner = b.path
+            out.append((owner, pat if isinstance(pat, str) else None, b, bi))
     return out
 
 
